@@ -282,7 +282,7 @@ def check_property(prop, cs, args, seed, lock, write_lock=False):
         found = f.get("input") is not None
         if not found:
             # a finite-table / introspection obligation failed: look for a failing input with the property's native oracle
-            carrier = [c for c in mine if c.replay]
+            carrier = [c for c in mine if c.replay and getattr(c, "extra_checks", None)] + [c for c in mine if c.replay]
             if carrier:
                 fake = [{"name": f["name"], "status": "failed", "backend": "table", "line": 0, "note": f.get("message"), "model": None, "path": []}]
                 path2, found2, detail2 = native_replay(prop, carrier[0], fake, os.path.join(HERE, "replay", prop), [])
